@@ -349,13 +349,45 @@ def first_diff_section(a, b):
     return "length" if len(sa) != len(sb) else "?"
 
 
+RETRIES = [0]
+
+
+def run_groups(binary, groups, timeout=10, max_hangs=2):
+    """like core.run_grouped_parallel (one process per history), but a history that hangs or dies costs at most `timeout`
+    seconds, and after `max_hangs` timeouts in a chunk the rest of the chunk is skipped (answers DIED)"""
+    n = core.NPROC
+    chunks = [list(range(i, len(groups), n)) for i in range(n)]
+    out = [None] * len(groups)
+
+    def work(idx):
+        hangs = 0
+        for i in idx:
+            hdr, ops = groups[i]
+            if hangs >= max_hangs:
+                out[i] = ("DIED skipped", ["DIED skipped after %d timeouts" % hangs] * len(ops))
+                continue
+            rc, so, se = core.sh_out([binary], input=hdr + "\n" + "\n".join(ops) + "\n", timeout=timeout)
+            lines = so.split("\n")
+            if lines and lines[-1] == "":
+                lines.pop()
+            if rc == 124:
+                hangs += 1
+            ha = lines[0] if lines else "DIED rc=%d" % rc
+            ans = lines[1:1 + len(ops)]
+            if len(ans) < len(ops):
+                ans += ["DIED rc=%d %s" % (rc, "TIMEOUT" if rc == 124 else se[-200:].replace("\n", " "))] * (len(ops) - len(ans))
+            out[i] = (ha, ans)
+    core.parallel_map(work, [c for c in chunks if c])
+    return out
+
+
 def run_case(drvs, orc, U, ops, opts):
     """returns (oracle answers, {opt: answers})"""
     grp = [(header(U), ops)]
-    exp = core.run_grouped(orc, grp)[0]
+    exp = run_groups(orc, grp, timeout=120)[0]
     obs = {}
     for k in opts:
-        obs[k] = core.run_grouped(drvs[k], grp)[0]
+        obs[k] = run_groups(drvs[k], grp)[0]
     return exp, obs
 
 
@@ -386,13 +418,13 @@ def shrink(drvs, orc, U, ops, opt, section, budget=60):
 
 def compare(ctx, hists, res, drvs, orc, do_shrink=True, seen_kinds=None):
     groups = [(header(h["U"]), h["ops"]) for h in hists]
-    exp = core.run_grouped_parallel(orc, groups)
+    exp = run_groups(orc, groups, timeout=120)
     obs = {}
     for k in sorted(OPTSETS):
         idx = [i for i, h in enumerate(hists) if k in h["opts"]]
         if not idx:
             continue
-        r = core.run_grouped_parallel(drvs[k], [groups[i] for i in idx])
+        r = run_groups(drvs[k], [groups[i] for i in idx])
         for i, x in zip(idx, r):
             obs[(i, k)] = x
     seen_kinds = seen_kinds if seen_kinds is not None else {}
@@ -428,10 +460,14 @@ def compare(ctx, hists, res, drvs, orc, do_shrink=True, seen_kinds=None):
             res.count("optset:" + OPTSETS[k], len(h["ops"]))
             res.evaluations += len(h["ops"])
             res.traces_validated += len(h["ops"])
-            if any(o.startswith(("CRASH", "DIED")) for o in ao):
+            if any(o.startswith("DIED skipped") for o in ao):
+                res.count("skipped-after-hangs")     # the hang itself is reported from the history that hung
+                continue
+            if any(o.startswith(("CRASH", "DIED")) for o in ao) and RETRIES[0] < 6:
                 # a crash may be the machine (memory pressure from parallel jobs): repeat this history alone once
+                RETRIES[0] += 1
                 res.count("crash-repeated")
-                ho, ao = core.run_grouped(drvs[k], [groups[i]])[0]
+                ho, ao = run_groups(drvs[k], [groups[i]])[0]
             for j, (e, o) in enumerate(zip(ae, ao)):
                 es = strip(e)
                 if es != o:
@@ -441,6 +477,8 @@ def compare(ctx, hists, res, drvs, orc, do_shrink=True, seen_kinds=None):
                     if kind not in seen_kinds and k in (3, 7):
                         seen_kinds[kind] = 1
                     # histories for the contiguous option sets are not shrunk: dropping an operation may leave a hole in the vertex set
+                    if kind not in seen_kinds and sec in ("CRASH", "DIED"):
+                        seen_kinds[kind] = 1      # crashes and hangs are not shrunk (each attempt may cost a timeout)
                     if kind not in seen_kinds and do_shrink and k not in (3, 7) and not os.environ.get("C01_NOSHRINK"):
                         seen_kinds[kind] = 1
                         try:
